@@ -117,6 +117,7 @@ class Effects:
         init = {p: frozenset([("P", p)]) for p in params}
         events = []
         summ = Summary()
+        summ.self_stores = {}
         local_names = set(params)
         for n in walk_no_nested(f.node):
             if isinstance(n, ast.Name) and isinstance(n.ctx, ast.Store):
@@ -198,6 +199,9 @@ class Effects:
                     if o[0] != "F":
                         out.add(("SH", o) if o[0] != "SH" else o)
                 return out or {F}
+            if isinstance(e, ast.BinOp) and isinstance(e.op, (ast.Add, ast.BitOr)):
+                keep = {o for o in (origins(e.left, st) | origins(e.right, st)) if o[0] == "SH"}
+                return keep or {F}
             return {F}   # constants, f-strings, arithmetic, comparisons, lambdas
 
         def call_origins(c, st):
@@ -363,6 +367,11 @@ class Effects:
                 return st2 if st2 is not None else st
             if n.kind == "cond":
                 scan_calls(a_, st)
+                # a name known to be None/falsy on this edge aliases nothing
+                falsy = _falsy_name(a_, lab)
+                if falsy is not None and falsy in st:
+                    S()[falsy] = frozenset([F])
+                    return st2
                 return st
             if n.kind == "with":
                 for it in a_.items:
@@ -382,6 +391,8 @@ class Effects:
                 scan_calls(a_.value, st)
                 val = origins(a_.value, st)
                 for t in a_.targets:
+                    if isinstance(t, ast.Attribute) and isinstance(t.value, ast.Name) and t.value.id == "self" and is_method:
+                        summ.self_stores.setdefault(t.attr, []).append((a_, frozenset(val)))
                     assign_target(t, val, a_, st, S)
                 return st2 if st2 is not None else st
             if isinstance(a_, ast.AnnAssign):
@@ -392,6 +403,10 @@ class Effects:
             if isinstance(a_, ast.AugAssign):
                 scan_calls(a_.value, st)
                 t = a_.target
+                if isinstance(t, ast.Name) and t.id in st and isinstance(a_.op, (ast.Add, ast.BitOr)):
+                    held = {("SH", o) if o[0] != "SH" else o for o in part_of(origins(a_.value, st)) if o[0] != "F"}
+                    if held:
+                        S()[t.id] = frozenset(set(st[t.id]) | held)
                 if isinstance(t, ast.Name):
                     cur = set(st.get(t.id, ()))
                     listy = isinstance(a_.value, (ast.List, ast.ListComp)) or (
@@ -404,7 +419,7 @@ class Effects:
                         record(a_, cur, "augmented assignment updates the set/dict in place")
                 elif isinstance(t, (ast.Attribute, ast.Subscript)):
                     store_target(t, a_, st)
-                return st
+                return st2 if st2 is not None else st
             if isinstance(a_, ast.Delete):
                 for t in a_.targets:
                     if isinstance(t, (ast.Attribute, ast.Subscript)):
@@ -419,6 +434,19 @@ class Effects:
                 return st
             if isinstance(a_, ast.Expr):
                 scan_calls(a_.value, st)
+                c = a_.value
+                # x.append(y) / x.extend(ys) / x.add(y) / x.insert(i, y) on a local container: x now holds y
+                if isinstance(c, ast.Call) and isinstance(c.func, ast.Attribute) and isinstance(c.func.value, ast.Name) \
+                        and c.func.value.id in st and c.args and c.func.attr in ("append", "extend", "add", "insert", "update",
+                                                                                  "appendleft"):
+                    arg = c.args[-1]
+                    o_arg = origins(arg, st)
+                    if c.func.attr in ("extend", "update"):
+                        o_arg = part_of(o_arg)
+                    held = {("SH", o) if o[0] != "SH" else o for o in o_arg if o[0] != "F"}
+                    if held:
+                        S()[c.func.value.id] = frozenset(set(st[c.func.value.id]) | held)
+                        return st2
                 return st
             # other simple statements (assert, raise, import ...)
             for x in ast.iter_child_nodes(a_):
@@ -451,6 +479,10 @@ class Effects:
                         assign_target(te, parts, stmt, st, S)
             elif isinstance(t, (ast.Attribute, ast.Subscript)):
                 store_target(t, stmt, st)
+                if isinstance(t, ast.Subscript) and isinstance(t.value, ast.Name) and t.value.id in st:
+                    held = {("SH", o) if o[0] != "SH" else o for o in val if o[0] != "F"}
+                    if held:
+                        S()[t.value.id] = frozenset(set(st[t.value.id]) | held)
 
         def join(x, y):
             if x is y or x == y:
@@ -533,6 +565,24 @@ class Effects:
         if any(w in low for w in ("df", "frame", "series", "column", "str", "text", "name")):
             return False
         return any(w in low for w in ("dict", "list", "set", "map", "children", "_onsets", "defs", "tags", "groups"))
+
+
+def _falsy_name(test, lab):
+    """Name known to be None / falsy when branch `lab` of `test` is taken, else None."""
+    neg = False
+    while isinstance(test, ast.UnaryOp) and isinstance(test.op, ast.Not):
+        test = test.operand
+        neg = not neg
+    if isinstance(test, ast.Name):
+        falsy_label = True if neg else False
+        return test.id if lab is falsy_label else None
+    if isinstance(test, ast.Compare) and len(test.ops) == 1 and isinstance(test.left, ast.Name) and \
+            isinstance(test.comparators[0], ast.Constant) and test.comparators[0].value is None:
+        is_none_label = isinstance(test.ops[0], (ast.Is, ast.Eq))
+        if neg:
+            is_none_label = not is_none_label
+        return test.left.id if lab is is_none_label else None
+    return None
 
 
 def _inplace(c):
